@@ -45,12 +45,18 @@ def _dag_units():
             for s in ('none', 'int') for e in ('none', 'int')]
 
 
+def _driver_units():
+    return [('contracts.pathsdriver', 'TimeRespectingPathsPrefix', (cls,), {'start': s, 'v': v}) for cls in ('DynGraph', 'DynDiGraph')
+            for s in ('none', 'int') for v in ('none', 'node')] \
+        + [('contracts.pathsdriver', 'AllTimeRespectingPaths', (cls,), {'min_t': m}) for cls in ('DynGraph', 'DynDiGraph') for m in ('none', 'int')]
+
+
 # property id -> list of (module, factory, args, variant)
 PROOF_UNITS = {
     'C20': [('contracts.conformity', 'SlidingDeltaConformity', (cls,), {'args': a}) for cls in ('DynGraph', 'DynDiGraph') for a in ('all', 'defaults')],
     'C15': _dag_units(),
-    'C12': _dag_units(),
-    'C13': _dag_units(),
+    'C12': _dag_units() + _driver_units(),
+    'C13': _dag_units() + _driver_units(),
     'C01': _kernel_units('removal') + _observer_units('removal') + _bulk_units() + _ctor_units(),
     'C03': _kernel_units('removal') + _ctor_units(),
     'C04': _kernel_units('removal') + _read_units(),
